@@ -1,4 +1,5 @@
 import JunoModel.C16.ProofsObs
+import JunoModel.C16.ProofsMig
 /-!
 C16 — Pruning never damages retained blocks, the head state, or L1-unconfirmed history.
 Property theorems (statements only; lemmas are in `Proofs*.lean`). Every theorem of this module is an
@@ -119,9 +120,10 @@ theorem floor_monotone (c : Cfg) (s : St) (op : Op) (R : Reach c s) (L : Legal c
     lo s.db ≤ lo (step c s op).1.db :=
   (step_facts op (inv_reach R) L).loMono
 
-/-- Within one process the shared `RetentionFloor` never moves down (readers never see it lower). -/
+/-- Within one process (no crash, no migration-then-start) the shared `RetentionFloor` never moves down
+(readers never see it lower). -/
 theorem shared_floor_monotone (c : Cfg) (s : St) (op : Op) (R : Reach c s) (L : Legal c s op)
-    (hop : ∀ seed, op ≠ .crash seed) :
+    (hop : (∀ seed, op ≠ .crash seed) ∧ ∀ mf u, op ≠ .migrate mf u) :
     s.mem.floorState.toNat ≤ (step c s op).1.mem.floorState.toNat :=
   (step_facts op (inv_reach R) L).fsMono hop
 
@@ -296,6 +298,99 @@ theorem orig_cancelled_prune_loses_hash_carve_out :
 theorem repaired_cancelled_prune_keeps_hash_carve_out :
     lo (run repairedCfg St.init cancelled).db = 1 ∧
     answer repairedCfg (run repairedCfg St.init cancelled) .stateAtHash 0 = .ok := by decide
+
+/-! ## The history-pruner migration (migration/historyprunner) -/
+
+/-- Cut-off arithmetic of `Migrator.Migrate`: when the guard lets it run, `pivot - retained` did not underflow
+and the cut-off is at most `min(L1 head, local head) - retained` (min-age floor included). -/
+theorem migration_floor_bound (c : Cfg) (h : Nat) (hh : h < 2 ^ 64) (l1 : UInt64) (mf : Option UInt64) (k : UInt64)
+    (hk : migKeep c h l1 mf = some k) :
+    c.retained.toNat ≤ min l1.toNat h ∧ k.toNat + c.retained.toNat ≤ min l1.toNat h := by
+  have := migKeep_bound c h hh l1 mf k hk; omega
+
+/-- `migrate` is one of the operations of `Reach`: every theorem above (`floor_bound`, `floor_monotone`,
+`retained_untouched*`, `state_one_below_floor`, `durable_floor_consistent`, `below_floor_pruned_not_partial`,
+`bloom_windows_survive`, `extend_and_revert_ok`) holds for histories in which the node was started through the
+history-pruner migration at any point (on a database no prune has touched above its cut-off), followed by
+the running pruner, reverts, crashes … In particular, right after it: -/
+theorem migration_then_retained_untouched (c : Cfg) (s : St) (R : Reach c s) (mf : Option UInt64) (u : Bool)
+    (L : Legal c s (.migrate mf u)) (h : Nat) (hh : (step c s (.migrate mf u)).1.db.height = some h)
+    (q : Q) (n : Nat) (hn : effFloor (step c s (.migrate mf u)).1 ≤ n) :
+    answer c (step c s (.migrate mf u)).1 q n = twinAnswer (some h) q n :=
+  retained_untouched_any c _ (Reach.step _ R L) h hh q n hn
+
+open Mig in
+/-- KEY INJECTIVITY across the three history kinds: two well-formed keys with the same history key, or the
+same scratch key, are the same key (kind, address, slot, block); and no scratch key is a history key. So
+staging never merges two entries and the scratch namespace cannot be mistaken for a history bucket. -/
+theorem scratch_keys_injective (k1 k2 : HKey) (w1 : k1.wf) (w2 : k2.wf) :
+    (historyKey k1 = historyKey k2 → k1 = k2) ∧ (scratchKey k1 = scratchKey k2 → k1 = k2) ∧
+    scratchKey k1 ≠ historyKey k2 := by
+  refine ⟨historyKey_inj k1 k2 w1 w2, scratchKey_inj k1 k2 w1 w2, ?_⟩
+  intro h
+  unfold scratchKey historyKey at h
+  have := (List.cons.inj h).1
+  cases hk : k2.kind <;> rw [hk] at this <;> exact absurd this (by decide)
+
+open Mig in
+/-- STAGE → WIPE → RESTORE preserves every history entry of the retained blocks, for ANY list of keys the
+state diffs name (any order, repetitions, the same address under several kinds in the same block): each
+listed key that had an entry gets exactly its own value back, and nothing else appears. -/
+theorem migration_round_trip (history : Store) (keys : List HKey) (hwf : ∀ k ∈ keys, k.wf) :
+    (∀ k ∈ keys, ∀ v, history (historyKey k) = some v → roundTrip history keys (historyKey k) = some v) ∧
+    (∀ b, (∀ k ∈ keys, historyKey k ≠ b) → roundTrip history keys b = none) := by
+  refine ⟨?_, fun b hb => restore_only _ keys _ b hb⟩
+  intro k hk v hv
+  exact restore_spec _ keys _ hwf k hk v (stage_spec history keys _ hwf k hk v hv)
+
+open Mig in
+/-- Why injectivity is the point: with that copy-paste the nonce entry and the class-hash entry of ONE
+contract in ONE block share a scratch key (so the second overwrites the first and both buckets get it back),
+while the real key function keeps them apart. -/
+theorem nonce_tag_for_class_hash_collides :
+    nonceAt5.wf ∧ classAt5.wf ∧ nonceAt5 ≠ classAt5 ∧
+    scratchKeyNonceForClass nonceAt5 = scratchKeyNonceForClass classAt5 ∧
+    scratchKey nonceAt5 ≠ scratchKey classAt5 := by decide
+
+/-- Pinned-commit migration, retained = pivot (or a min-age floor of 0): cut-off 0. -/
+def zeroCutoff : List Op :=
+  [.crash true, .store, .store, .store, .store, .store, .store, .writeL1 3, .migrate none false]
+
+/-- NEGATION WITNESS (defect of the migration at the pinned commit): with `retained = 3 = min(L1, head)` the
+cut-off is block 0 — nothing may be pruned — yet the migration fails (`GetBlockHeaderByNumber(0-1)`) after
+having wiped the lookup buckets: every block's hash lookups are gone. -/
+theorem migration_cutoff_zero_fails :
+    let c : Cfg := { origCfg with retained := 3 }
+    Reach c (run c St.init zeroCutoff.dropLast) ∧
+    (step c (run c St.init zeroCutoff.dropLast) (.migrate none false)).2 = .err ∧
+    effFloor (run c St.init zeroCutoff) = 0 ∧
+    answer c (run c St.init zeroCutoff) .blockByNumber 4 = .ok ∧
+    answer c (run c St.init zeroCutoff) .blockByHash 4 = .notfound ∧
+    answer c (run c St.init zeroCutoff) .txByHash 0 = .notfound :=
+  ⟨reach_run Reach.init _ (by decide), by decide⟩
+
+/-- NEGATION WITNESS (second defect of the migration at the pinned commit): one retained block whose state
+diff names a storage slot it did not change (no history entry) makes the stager fail — after the lookup
+buckets were wiped and the blocks below the cut-off deleted. -/
+theorem migration_unchanged_slot_fails :
+    let c : Cfg := { origCfg with retained := 1 }
+    let ops : List Op := [.crash true, .store, .store, .store, .store, .store, .store, .writeL1 3]
+    (step c (run c St.init ops) (.migrate none true)).2 = .err ∧
+    answer c (step c (run c St.init ops) (.migrate none true)).1 .blockByNumber 4 = .ok ∧
+    answer c (step c (run c St.init ops) (.migrate none true)).1 .blockByHash 4 = .notfound := by decide
+
+/-- With the two proposed repairs the same starts are harmless: cut-off 0 is "nothing to prune", an
+unchanged slot is skipped, and both are legal histories (covered by every theorem above). -/
+theorem repaired_migration_handles_both :
+    let c : Cfg := { repairedCfg with retained := 3, migSkipsMissing := true, migZeroNoop := true }
+    Reach c (run c St.init zeroCutoff) ∧
+    answer c (run c St.init zeroCutoff) .blockByHash 4 = .ok ∧
+    (let c1 : Cfg := { c with retained := 1 }
+     let ops : List Op := [.crash true, .store, .store, .store, .store, .store, .store, .writeL1 3, .migrate none true]
+     Reach c1 (run c1 St.init ops) ∧ lo (run c1 St.init ops).db = 2 ∧
+     answer c1 (run c1 St.init ops) .blockByHash 2 = .ok ∧ answer c1 (run c1 St.init ops) .stateAtHash 1 = .ok ∧
+     answer c1 (run c1 St.init ops) .requireRetained 1 = .pruned) :=
+  ⟨reach_run Reach.init _ (by decide), by decide, reach_run Reach.init _ (by decide), by decide⟩
 
 /-! ## Non-vacuity -/
 
